@@ -95,7 +95,9 @@ class Engine:
         if isinstance(t, TSet): return Select(coll.term, x.term)
         if isinstance(t, TBag): return Select(coll.term, x.term) > 0
         if is_map(t): return Select(t.get(coll, 'dom').term, x.term)
-        if isinstance(t, TSeq): return Contains(coll.term, Unit(x.term))
+        if isinstance(t, TSeq):
+            sm = getattr(self.w, 'seq_member', None)
+            return sm(coll.term, x.term) if sm else Contains(coll.term, Unit(x.term))
         raise Unsupported(f'membership in {t}')
 
     def truthy(self, s):
@@ -257,7 +259,12 @@ class Engine:
                 self.oblige(st, 'no IndexError (list(set)[0] of a non-empty set)', self.truthy(coll), e.lineno)
                 x = coll.t.elem.fresh('any'); st.pc.append(Select(coll.term, x.term)); return x
         base = self.ev(e.value, st)
-        if isinstance(e.slice, ast.Slice): raise Unsupported('slice')
+        if isinstance(e.slice, ast.Slice):
+            sl = e.slice
+            if sl.lower is None and sl.upper is None and isinstance(sl.step, ast.UnaryOp) and isinstance(sl.step.op, ast.USub) \
+                    and isinstance(sl.step.operand, ast.Constant) and sl.step.operand.value == 1 and isinstance(base.t, TSeq) and getattr(self.w, 'seq_reverse', None):
+                return Sym(base.t, self.w.seq_reverse(base.term))
+            raise Unsupported(f'slice (line {e.lineno})')
         k = self.ev(e.slice, st)
         if is_map(base.t):
             self.oblige(st, 'no KeyError', self.mem(base, k), e.lineno)
@@ -288,11 +295,15 @@ class Engine:
         g = e.generators[0]; coll = self.ev(g.iter, st)
         et = coll.t.elem if isinstance(coll.t, (TSet, TBag, TSeq)) else None
         if et is None: raise Unsupported(f'comprehension over {coll.t}')
-        x = et.fresh('cx'); sub = st.copy(); self.bind_target(g.target, x, sub.env); n0 = len(sub.pc); no = len(self.obls)
+        x = et.fresh('cx'); sub = st.copy(); self.bind_target(g.target, x, sub.env)
+        sub.pc.append(self.mem(coll, x)); n0 = len(sub.pc)          # obligations under the binder keep `x` free: they hold for every element
+        conds = []
+        for c in g.ifs:                                              # the filter is evaluated before the element expression, left to right
+            t = self.truthy(self.ev(c, sub)); conds.append(t); sub.pc.append(t)
+        n1 = len(sub.pc)
         elt = self.ev(e.elt, sub) if hasattr(e, 'elt') else None
-        flt = And([self.truthy(self.ev(c, sub)) for c in g.ifs]) if g.ifs else BoolVal(True)
-        if len(sub.pc) != n0: raise Unsupported(f'comprehension body calls a function without a pure spec term (line {e.lineno})')
-        del self.obls[no:]       # obligations under the binder are re-emitted quantified by the caller if needed
+        flt = And(conds) if conds else BoolVal(True)
+        if len(sub.pc) != n1 or n1 != n0 + len(conds): raise Unsupported(f'comprehension body calls a function without a pure spec term (line {e.lineno})')
         return coll, x, elt, flt
 
     def ev_ListComp(self, e, st):
@@ -329,6 +340,8 @@ class Engine:
             n = f.id
             if n in ('any', 'all') and e.args and isinstance(e.args[0], ast.GeneratorExp):
                 return self.quantified(e.args[0], st, n == 'all')
+            if n == 'isinstance' and len(e.args) == 2 and isinstance(e.args[1], ast.Name) and e.args[1].id in self.w.isinstance_preds:
+                return Sym(TBool, self.w.isinstance_preds[e.args[1].id](self.ev(e.args[0], st)))
             if n in self.w.identity_fns: return self.ev(e.args[0], st)
             if n in ('set', 'list') and len(e.args) == 1:
                 a = self.ev(e.args[0], st)
@@ -356,7 +369,11 @@ class Engine:
                 back = st.env[tmp]
                 self.assign(ast.Name(id='self', ctx=ast.Store(), lineno=e.lineno, col_offset=0), me.t.make(**{fl: sup.get(back, fl) for fl, _ in me.t.fields}), st)
                 return res
-            recv = self.ev(f.value, st); args = [self.ev(a, st) for a in e.args]
+            recv = self.ev(f.value, st)
+            args = [NONE_SYM if (self.is_empty_literal(a) or (isinstance(a, ast.Tuple) and not a.elts)) else self.ev(a, st) for a in e.args]
+            if recv.ref is not None and recv.t is None:          # method called on a reference local (d.setdefault(k, []).append(x))
+                node = recv.ref; recv = self.ev(node, st)
+                f = ast.Attribute(value=node, attr=f.attr, ctx=ast.Load(), lineno=e.lineno, col_offset=0)
             r = self.coll_method(f, recv, args, st, e)
             if r is not None: return r
             if isinstance(recv.t, TRec):
@@ -399,10 +416,12 @@ class Engine:
         if is_map(t):
             if a == 'get' and len(args) == 2:
                 k, d = args
+                if d.t is TNone and isinstance(t.val, (TSet, TBag, TSeq)): d = t.val.empty()          # d.get(k, []) / d.get(k, ())
                 if d.t != t.val: raise Unsupported('dict.get default of another type')
                 return Sym(t.val, If(self.mem(recv, k), Select(t.get(recv, 'val').term, k.term), d.term))
             if a == 'setdefault' and len(args) == 2:
                 k, d = args
+                if d.t is TNone and isinstance(t.val, (TSet, TBag, TSeq)): d = t.val.empty()
                 newmap = t.make(dom=Sym(TSet(t.key), Store(t.get(recv, 'dom').term, k.term, True)),
                                 val=Sym(t.ftype('val'), If(self.mem(recv, k), t.get(recv, 'val').term,
                                                             Store(t.get(recv, 'val').term, k.term, d.term))))
